@@ -3,5 +3,6 @@
 # /repo, build the whole Coq development (.vo) and the extracted OCaml model.
 set -e
 cd "$(dirname "$0")"
-export PYTHONPATH=/repo:$(pwd) PYTHONHASHSEED=0 TORCHEVAL_VERIF=1 OMP_NUM_THREADS=1
+export VERIF_REPO=${VERIF_REPO:-/repo}
+export PYTHONPATH=$VERIF_REPO:$(pwd) PYTHONHASHSEED=0 TORCHEVAL_VERIF=1 OMP_NUM_THREADS=1
 /venv/bin/python -m vlib.setup
